@@ -1,12 +1,22 @@
 from __future__ import annotations
 
 import itertools
+import math
 import weakref
 
 import claripy
 from claripy import backends, errors, false
 from claripy.ast import Base
 from claripy.errors import UnsatError
+
+from .constraint_expansion_mixin import value_equals
+
+
+def _value_key(v):
+    # floats are told apart by what they are, not by ==: every NaN is the same value, +0.0 and -0.0 are not
+    if isinstance(v, float):
+        return ("nan",) if math.isnan(v) else (math.copysign(1.0, v), v)
+    return v
 
 
 class ModelCache:
@@ -19,11 +29,14 @@ class ModelCache:
 
     def __hash__(self):
         if not hasattr(self, "_hash"):
-            self._hash = hash(frozenset(self.model.items()))  # pylint:disable=attribute-defined-outside-init
+            self._hash = hash(self._key())  # pylint:disable=attribute-defined-outside-init
         return self._hash
 
     def __eq__(self, other):
-        return self.model == other.model
+        return self._key() == other._key()
+
+    def _key(self):
+        return frozenset((k, _value_key(v)) for k, v in self.model.items())
 
     def __getstate__(self):
         return (self.model,)
@@ -110,6 +123,29 @@ class ModelCache:
         """
 
         return tuple(self.eval_ast(c, allow_unconstrained=allow_unconstrained) for c in asts)
+
+
+class _SolutionSet:
+    """
+    A set of solution tuples. (A plain set keeps every NaN it is given, because NaN != NaN, and keeps only one of +0.0
+    and -0.0, because they are equal.)
+    """
+
+    def __init__(self):
+        self._solutions = {}
+
+    def add(self, solution):
+        self._solutions.setdefault(tuple(_value_key(v) for v in solution), solution)
+
+    def update(self, solutions):
+        for solution in solutions:
+            self.add(solution)
+
+    def __len__(self):
+        return len(self._solutions)
+
+    def __iter__(self):
+        return iter(self._solutions.values())
 
 
 class ModelCacheMixin:
@@ -274,7 +310,7 @@ class ModelCacheMixin:
                 yield m
 
     def _get_batch_solutions(self, asts, n=None, extra_constraints=(), allow_unconstrained=True):
-        results = set()
+        results = _SolutionSet()
 
         for m in self._get_models(extra_constraints):
             try:
@@ -331,7 +367,12 @@ class ModelCacheMixin:
         # TODO: faster to concat?
         if len(results) != 0:
             constraints = (
-                claripy.And(*[claripy.Or(*[a != v for a, v in zip(asts, r, strict=False)]) for r in results]),
+                claripy.And(
+                    *[
+                        claripy.Or(*[claripy.Not(value_equals(a, v)) for a, v in zip(asts, r, strict=False)])
+                        for r in results
+                    ]
+                ),
                 *tuple(extra_constraints),
             )
         else:
